@@ -13,7 +13,7 @@ Trace == ndJsonDeserialize(TraceFile)
 Install(st) ==
   /\ reg' = st.reg /\ online' = st.online /\ approved' = st.approved /\ power' = st.power
   /\ bridger' = st.bridger /\ bidx' = st.bidx /\ last' = st.last /\ delegated' = st.delegated
-  /\ pen' = st.pen /\ totalPower' = st.totalPower /\ lastObs' = st.lastObs /\ votes' = st.votes
+  /\ pen' = st.pen /\ totalPower' = st.totalPower /\ lastObs' = st.lastObs /\ obsExt' = st.obsExt /\ votes' = st.votes
   /\ observed' = st.observed /\ pending' = st.pending /\ effects' = st.effects
   /\ UNCHANGED <<mops, bonds>>
 
